@@ -26,8 +26,11 @@ Proof. vm_compute. reflexivity. Qed.
 Lemma alpha_config_eq : forall o, alpha_config o = alpha_config_doc o.
 Proof. intros []. interp. reflexivity. Qed.
 
-Lemma lossy_config_eq : forall o q ha, lossy_config o q ha = lossy_config_doc o q ha.
+Lemma lossy_config_pre_eq : forall o q ha, lossy_config_pre o q ha = lossy_config_doc o q ha.
 Proof. intros [] q ha. interp. reflexivity. Qed.
+
+Lemma lossy_config_eq : forall o q ha, lossy_config o q ha = apply_clamps (lossy_config_doc o q ha).
+Proof. intros. unfold lossy_config. rewrite lossy_config_pre_eq. reflexivity. Qed.
 
 Lemma effective_eq : forall oo w h ha, effective oo w h ha = effective_doc oo w h ha.
 Proof.
@@ -162,6 +165,37 @@ Definition codec_pre (w h : Z) (e : eff) : Prop :=
   | ELossy c a _ _ m => lossy_pre c /\ alpha_pre a /\ meta_pre m
   end.
 
+(** The clamps found in the source (none, or Quality into [QMin, QMax], possibly only when a
+    target is set) change nothing but Quality, and only to QMin or QMax. *)
+Definition set_quality (q : Z) (c : lcfg) : lcfg :=
+  mkL q (cTargetSize c) (cTargetPSNR c) (cMethod c) (cSNS c) (cFStrength c) (cFSharpness c) (cFType c)
+      (cPartitions c) (cSegments c) (cPass c) (cPreprocessing c) (cDither c) (cQMin c) (cQMax c) (cHasAlpha c).
+
+Lemma apply_clamps_spec : forall c, exists q',
+  apply_clamps c = set_quality q' c /\
+  (q' = cQuality c \/ (cQuality c < cQMin c /\ q' = cQMin c) \/ (cQuality c > cQMax c /\ q' = cQMax c)
+   \/ (cQuality c < cQMin c /\ cQMin c > cQMax c /\ q' = cQMax c)).
+Proof.
+  intros [].
+  match goal with |- context [apply_clamps ?x] =>
+    let t := eval cbv -[Z.ltb Z.gtb Z.geb Z.leb Z.eqb fl_gt orb] in (apply_clamps x) in
+    change (apply_clamps x) with t end.
+  cbn [OptsModel.cQuality OptsModel.cQMin OptsModel.cQMax].
+  destruct (cQuality <? cQMin) eqn:?;
+  repeat match goal with |- context [if ?b then _ else _] => destruct b eqn:? end;
+    eexists; (split; [reflexivity|]); lia.
+Qed.
+
+Lemma apply_clamps_pre : forall c, lossy_pre c -> lossy_pre (apply_clamps c).
+Proof.
+  intros c H. destruct (apply_clamps_spec c) as [q' [-> Hq]].
+  unfold lossy_pre, set_quality in *.
+  cbn [cQuality cTargetSize cTargetPSNR cMethod cSNS cFStrength cFSharpness cFType cPartitions cSegments
+       cPass cPreprocessing cDither cQMin cQMax cHasAlpha].
+  destruct H as (H1 & H2 & H3 & H4 & H5 & H6 & H7 & H8 & H9 & H10 & H11 & H12 & H13 & H14 & H15 & H16 & H17).
+  repeat match goal with |- _ /\ _ => split end; try assumption; try lia.
+Qed.
+
 Lemma quot_range : forall n, 0 * fscale <= n <= 100 * fscale -> 0 <= Z.quot n fscale <= 100.
 Proof.
   intros n H. pose proof fscale_pos as P.
@@ -184,7 +218,8 @@ Proof.
   destruct (oLossless o).
   - intros [= <-]. unfold codec_pre, lossless_pre, meta_pre. cbn [lQuality lMethod lNear]. lia.
   - intros [= <-]. unfold codec_pre. split; [lia|]. split; [lia|]. split; [|split].
-    + unfold lossy_pre, lossy_config_doc, clampZ, rq, doc_SNSStrength, doc_FilterStrength, doc_FilterType,
+    + apply apply_clamps_pre.
+      unfold lossy_pre, lossy_config_doc, clampZ, rq, doc_SNSStrength, doc_FilterStrength, doc_FilterType,
         doc_Segments, doc_Pass in *.
       cbn [cQuality cTargetSize cTargetPSNR cMethod cSNS cFStrength cFSharpness cFType cPartitions cSegments
            cPass cPreprocessing cDither cQMin cQMax cHasAlpha].
@@ -347,4 +382,72 @@ Proof.
   first [ left; vm_compute; reflexivity
         | right; split; [vm_compute; reflexivity|];
           intros H; specialize (H 0 ltac:(lia)); vm_compute in H; discriminate ].
+Qed.
+
+(** * 11. QMin / QMax as the quantizer range of Quality *)
+(** Full documented statement ("QMin / QMax set the minimum / maximum quantizer value"): the
+    quality handed to the lossy codec lies in [QMin, QMax]. *)
+Definition quality_in_range : Prop := forall oo w h ha c a e s m,
+  effective oo w h ha = Ok (ELossy c a e s m) -> cQMin c <= cQuality c <= cQMax c.
+(** ... at least when the rate control runs (TargetSize or TargetPSNR set). *)
+Definition quality_in_range_when_target : Prop := forall oo w h ha c a e s m,
+  effective oo w h ha = Ok (ELossy c a e s m) ->
+  (cTargetSize c >? 0) || fl_gt (cTargetPSNR c) 0 = true -> cQMin c <= cQuality c <= cQMax c.
+
+Definition ex_q90_range30 (tsize : Z) : opts :=
+  mkOpts false (FFin (90 * fscale)) 4 0 false false tsize (FFin 0) 0 (-1) (-1) 0 (-1) 0 (-1) (-1) false 30 30 (-1) (-1) (-1) 0 0 0.
+
+(** Refuted on the faithful model: without a target the range is ignored (Quality 90 with
+    QMin = QMax = 30 is handed over as 90). *)
+Theorem quality_in_range_refuted :
+  exists o c a e s m, validate o = false /\ effective (Some o) 16 16 false = Ok (ELossy c a e s m) /\
+                      cTargetSize c = 0 /\ cQMax c < cQuality c.
+Proof.
+  exists (ex_q90_range30 0). eexists. eexists. eexists. eexists. eexists.
+  split; [vm_compute; reflexivity|]. split; [vm_compute; reflexivity|]. split; vm_compute; reflexivity.
+Qed.
+
+Lemma apply_clamps_in_range : forall c, F.quality_clamp_rule <> [] -> cQMin c <= cQMax c ->
+  (cTargetSize c >? 0) || fl_gt (cTargetPSNR c) 0 = true ->
+  cQMin c <= cQuality (apply_clamps c) <= cQMax c.
+Proof.
+  intros [] Hr Hle Hg.
+  first [ exfalso; apply Hr; reflexivity
+        | match goal with |- context [apply_clamps ?x] =>
+            let t := eval cbv -[Z.ltb Z.gtb Z.geb Z.leb Z.eqb fl_gt orb] in (apply_clamps x) in
+            change (apply_clamps x) with t end;
+          cbn [OptsModel.cQuality OptsModel.cQMin OptsModel.cQMax OptsModel.cTargetSize OptsModel.cTargetPSNR] in *;
+          rewrite Hg;
+          cbn [OptsModel.cQuality];
+          destruct (cQuality <? cQMin) eqn:?;
+          repeat match goal with |- context [if ?b then _ else _] => destruct b eqn:? end; lia ].
+Qed.
+
+(** With a target: decided by the regenerated source.  Either the propagation block clamps
+    (then the range holds for every option value), or it does not (pinned tree) and the
+    statement is refuted by Quality 90, QMin = QMax = 30, TargetSize 600. *)
+Theorem quality_in_range_when_target_or_refuted :
+  quality_in_range_when_target \/ (F.quality_clamp_rule = [] /\ ~ quality_in_range_when_target).
+Proof.
+  first
+  [ right; split; [reflexivity|];
+    intros H; pose proof (H (Some (ex_q90_range30 600)) 16 16 false) as H';
+    vm_compute in H'; specialize (H' _ _ _ _ _ eq_refl eq_refl); destruct H' as [_ H2]; apply H2; reflexivity
+  | left; intros oo w h ha c a e s m He Hg;
+    rewrite effective_eq in He; unfold effective_doc in He;
+    set (o := match oo with None => doc_default_options | Some o => o end) in *;
+    destruct (validate_doc o) eqn:V; [discriminate|];
+    apply validate_doc_false_iff in V;
+    destruct ((w <=? 0) || (h <=? 0)); [discriminate|];
+    destruct ((w >? 16383) || (h >? 16383)); [discriminate|];
+    destruct (fl_to_int (oQuality o)) as [q|]; [|discriminate];
+    destruct (oLossless o); [discriminate|];
+    injection He as <- _ _ _ _;
+    destruct (apply_clamps_spec (lossy_config_doc o q ha)) as [q' [Es _]];
+    pose proof (dv_q _ V) as Hq;
+    assert (Hg' : (cTargetSize (lossy_config_doc o q ha) >? 0) || fl_gt (cTargetPSNR (lossy_config_doc o q ha)) 0 = true)
+      by (rewrite Es in Hg; exact Hg);
+    pose proof (apply_clamps_in_range (lossy_config_doc o q ha) ltac:(discriminate)
+                  ltac:(unfold lossy_config_doc; cbn [cQMin cQMax]; lia) Hg') as R;
+    rewrite Es in *; unfold set_quality in *; cbn [cQuality cQMin cQMax] in *; exact R ].
 Qed.
